@@ -39,6 +39,10 @@ def plan(tier, seed):
             if tier == "quick" and name != "cond" and k % 3:
                 continue
             specs.append({"klass": name, "i": k, "exprs": chunk, "form": "direct" if k % 2 else "inter"})
+    for k, chunk in enumerate(classes.chunks(classes.conditional_table(), 16)):
+        if tier == "quick" and k % 2:
+            continue
+        specs.append({"klass": "cond_names", "i": k, "exprs": chunk, "form": "direct" if k % 2 else "inter", "rename": classes.RENAME_TOKENS})
     shapes = [("chain", 30), ("unused", 12), ("random", 25)]
     for k, (sh, n) in enumerate(shapes):
         specs.append({"klass": "shape", "i": k, "shape": sh, "n_inter": n})
@@ -218,12 +222,12 @@ def run_case(spec, ctx):
     if spec.get("exprs") and not spec.get("text") and any(v["kind"] in ("codegen_raises", "raises", "exec_fails") for v in out["violations"]):
         vs, okc = [], 0
         for e in spec["exprs"]:
-            sub = check_model(classes.packed_model([e]), C.rng_for(spec, e), want=3, tier=tier)
+            sub = check_model(c01.single_text(spec, e), C.rng_for(spec, e), want=3, tier=tier)
             okc += sub["counters"].get("compared", 0)
             out["evaluations"] += sub.get("evaluations", 0)
             for v in sub["violations"]:
                 v["detail"]["expression"] = e
-                v["text"] = classes.packed_model([e])
+                v["text"] = c01.single_text(spec, e)
                 v["_cls"] = {"ode": sub.get("_ode"), "ref": sub.get("_ref"), "code": sub.get("code")}
                 vs.append(v)
         out["violations"] = vs
